@@ -136,7 +136,16 @@ def run_extra(spec, tier, seed):
         jag = awk.build(system, rows, mom, awk.structures(n)["jagged"], route="zip", extra=True)
         rec = awk.build(system, rows, mom, awk.structures(n)["flat"], route="Array", extra=True)[2]
         o = B.mk_obj(system, rows[0], mom)
-        operands = {"numpy": A, "numpy-view": view, "numpy-readonly": ro, "awkward-jagged": jag, "awkward-record": rec, "object": o}
+        # a NumPy vector array that carries an extra (non-coordinate) field
+        names_x = list(R.field_names(system))
+        raw = numpy.zeros(n, dtype=[(nm, numpy.float64) for nm in names_x] + [("charge", numpy.int64), ("weight", numpy.float32)])
+        for i, nm in enumerate(names_x):
+            raw[nm] = [row[i] for row in rows]
+        raw["charge"] = numpy.arange(n) % 3 - 1
+        raw["weight"] = numpy.linspace(0.5, 1.5, n)
+        extra_arr = raw.view(getattr(vector, ("MomentumNumpy" if mom else "VectorNumpy") + f"{dim}D"))
+        operands = {"numpy": A, "numpy-view": view, "numpy-readonly": ro, "numpy-extra-fields": extra_arr, "awkward-jagged": jag,
+                    "awkward-record": rec, "object": o}
         for oname, X in operands.items():
             cell = f"{sn}|{'mom' if mom else 'gen'}|{oname}"
             watch = [X] + ([big] if oname == "numpy-view" else [])
